@@ -721,6 +721,15 @@ func blockOfVoxel(v, blockSize int32) int32 {
 // GetMask returns a binary volume of subvol size where each element is 1 if inside the ROI
 // and 0 if outside the ROI.
 func (d *Data) GetMask(ctx *datastore.VersionedCtx, subvol *dvid.Subvolume) ([]byte, error) {
+	// the mask is allocated whole: every extent must be positive and the total within the server's request limit
+	numVoxels := int64(1)
+	for dim := uint8(0); dim < 3; dim++ {
+		n := int64(subvol.Size().Value(dim))
+		if n <= 0 || numVoxels > server.MaxDataRequest/n {
+			return nil, fmt.Errorf("requested mask %s is empty or exceeds this DVID server's set limit (%d bytes)", subvol, server.MaxDataRequest)
+		}
+		numVoxels *= n
+	}
 	pt0 := subvol.StartPoint()
 	pt1 := subvol.EndPoint()
 	minBlockZ := blockOfVoxel(pt0.Value(2), d.BlockSize[2])
